@@ -98,13 +98,34 @@ def captureOutside (n inc : TSRange) : Bool :=
   (decide (n.end_byte ≤ inc.start_byte) || point_lte n.end_point inc.start_point) ||
   (decide (n.start_byte ≥ inc.end_byte) || point_gte n.start_point inc.end_point)
 
+def PLt (p q : TSPoint) : Prop := p.row < q.row ∨ (p.row = q.row ∧ p.column < q.column)
+def PLe (p q : TSPoint) : Prop := p.row < q.row ∨ (p.row = q.row ∧ p.column ≤ q.column)
+instance (p q : TSPoint) : Decidable (PLt p q) := by unfold PLt; infer_instance
+instance (p q : TSPoint) : Decidable (PLe p q) := by unfold PLe; infer_instance
+
+/-- Spec of "node range `a` intersects range `b`": half-open overlap in bytes and in points; an
+empty node (start = end) at position p meets `b` iff `b.start ≤ p < b.end`.
+(`range_intersects_spec`: the function generated from query.c equals this.) -/
+def intersectsSpec (a b : TSRange) : Bool :=
+  if a.start_byte = a.end_byte then
+    decide ((b.start_byte ≤ a.start_byte ∧ a.start_byte < b.end_byte) ∧
+      (PLe b.start_point a.end_point ∧ PLt a.start_point b.end_point))
+  else
+    decide ((a.end_byte > b.start_byte ∧ a.start_byte < b.end_byte) ∧
+      (PLt b.start_point a.end_point ∧ PLt a.start_point b.end_point))
+
+/-- Spec of "node range `a` lies within range `b`". -/
+def withinSpec (a b : TSRange) : Bool :=
+  decide ((b.start_byte ≤ a.start_byte ∧ a.end_byte ≤ b.end_byte) ∧
+    (PLe b.start_point a.start_point ∧ PLe a.end_point b.end_point))
+
 /-- Which unrestricted matches a cursor restricted to the intersecting range `inc` returns:
 those whose root node intersects the range (and whose parent does, as the code requires both). -/
 def keepIntersect (inc : TSRange) (m : Match) : Bool :=
-  range_intersects m.root inc && (!m.hasPar || range_intersects m.par inc)
+  intersectsSpec m.root inc && (!m.hasPar || intersectsSpec m.par inc)
 
 /-- … and to the containing range `con`: those whose root node lies within it. -/
-def keepWithin (con : TSRange) (m : Match) : Bool := range_within m.root con
+def keepWithin (con : TSRange) (m : Match) : Bool := withinSpec m.root con
 
 /-! ## Text predicates -/
 
